@@ -28,7 +28,14 @@ def branch_of(func, test_src: str, params, returns, module, prelude=()):
     V().visit(tree)
     if len(found) != 1:
         raise Unsliceable(f"{func.__name__}: expected exactly one branch `{test_src}`, found {len(found)}")
-    body = [ast.parse(p).body[0] for p in prelude] + found[0]
+    stmts = list(found[0])
+    if stmts and isinstance(stmts[-1], ast.Continue):
+        stmts = stmts[:-1]  # the branch ends its loop iteration: the slice simply returns
+    for st in stmts:
+        for n in ast.walk(st):
+            if isinstance(n, (ast.Continue, ast.Break)):
+                raise Unsliceable(f"{func.__name__}: branch `{test_src}` has inner continue/break")
+    body = [ast.parse(p).body[0] for p in prelude] + stmts
     body.append(ast.Return(ast.Tuple([ast.Name(r, ast.Load()) for r in returns], ast.Load())))
     fn = ast.FunctionDef(
         name="slice_" + func.__name__,
@@ -65,3 +72,19 @@ def _tokenize_string_branch():
         lexer,
         prelude=["normalized_from = None"],
     )
+
+
+def tokenize_fence_branch():
+    """Fence-span branch of lexer.tokenize: (content, fence_spans, fence_span_idx, pos, line, column, tokens) ->
+    (tokens, pos, line, column, fence_span_idx)."""
+    if "fence" not in _CACHE:
+        from octave_mcp.core import lexer
+
+        _CACHE["fence"] = branch_of(
+            lexer.tokenize,
+            "fence_span_idx < len(fence_spans) and pos == fence_spans[fence_span_idx][0]",
+            ["content", "fence_spans", "fence_span_idx", "pos", "line", "column", "tokens"],
+            ["tokens", "pos", "line", "column", "fence_span_idx"],
+            lexer,
+        )
+    return _CACHE["fence"]
